@@ -102,6 +102,14 @@ func compareSeq(r *run, prop, class, f string, want, got []vegeta.Result) bool {
 				explain = "header-value-blanks-trimmed" // the only difference: blanks at the ends of a header value are gone
 			} else if uw := simcommon.MapHeaderValues(want[i], simcommon.ValidUTF8); f == "json" && simcommon.DiffResults(&uw, &got[i]) == "" {
 				explain = "header-value-non-utf8-replaced" // the only difference: bytes of a header value that are not UTF-8 became U+FFFD
+			} else if dw, left := simcommon.DropBlankKeys(want[i]); f == "csv" && want[i].Headers != nil && len(dw.Headers) < len(want[i].Headers) {
+				// the only difference: header entries whose name ends in a blank are gone (when none is left, the
+				// record reads back without headers or with an empty set)
+				nw := dw
+				nw.Headers = nil
+				if simcommon.DiffResults(&dw, &got[i]) == "" || (!left && simcommon.DiffResults(&nw, &got[i]) == "") {
+					explain = "header-name-with-blank-dropped"
+				}
 			}
 			r.fail(prop, class, map[string]string{"fmt": f, "explain": explain}, "%s: record %d of %d differs: %s", f, i, len(want), d)
 			return false
@@ -125,7 +133,9 @@ func runCodec(t *simrt.Tape, keep bool) simrt.Outcome {
 	// likewise header values that the CSV and JSON layouts cannot carry (blanks at the ends, bytes that are not
 	// UTF-8; known findings), in other runs than the carriage returns so that each difference stands alone
 	odd := !cr && t.Prob(1, 10)
-	rs := genResults(r, n, simcommon.GenOpts{NoCR: !cr, OddHeaders: odd})
+	// and header names that the CSV layout cannot carry (a blank before the colon; known finding)
+	oddKeys := !cr && !odd && t.Prob(1, 10)
+	rs := genResults(r, n, simcommon.GenOpts{NoCR: !cr, OddHeaders: odd, OddKeys: oddKeys})
 	big := -1
 	if n > 0 && t.Prob(1, 30) {
 		// one record beyond a megabyte (a large response body), without headers, somewhere in the sequence: buffers
